@@ -431,8 +431,10 @@ func restDecodeTimeout(timeout string) (time.Duration, error) {
 
 // Encode timeout as a float in seconds for X-Server-Timeout header.
 func restEncodeTimeout(timeout time.Duration) string {
-	if timeout == 0 {
-		return ""
+	if timeout <= 0 {
+		// An already expired deadline is still a deadline: an empty value
+		// would mean "no timeout" to the server.
+		return "0"
 	}
 	return strconv.FormatFloat(timeout.Seconds(), 'f', -1, 64)
 }
